@@ -369,6 +369,13 @@ def job_caps(res, rng, w, home, job):
             continue
         eff, perm, inh = c
         raw = struct.pack("<IIIII", 0x02000000 | eff, perm & 0xffffffff, inh & 0xffffffff, perm >> 32, inh >> 32)
+        if k % 3 == 1:
+            # revision 3 ("namespaced" capabilities, what `setcap -n <rootid>` and rootless image builds leave behind): the
+            # same five words followed by the id of the namespace's root user; the kernel hands it back in this form as long
+            # as that id is not 0
+            raw = struct.pack("<IIIIII", 0x03000000 | eff, perm & 0xffffffff, inh & 0xffffffff, perm >> 32, inh >> 32,
+                              rng.choice([1000, 65534, 100000]))
+            res.count("capability_revision_3_cases")
         try:
             os.setxattr(p, "security.capability", raw)
         except OSError as e:
